@@ -79,7 +79,7 @@ def variants(platform, session_names=None, additive=False):
     return out
 
 
-def generate_platform(platform, outdir, session_names=None, additive=False):
+def generate_platform(platform, outdir, session_names=None, additive=False, extra_tables=()):
     ps = spec.platforms(additive)[platform]
     em = Emit()
     obs = []
@@ -131,6 +131,21 @@ def generate_platform(platform, outdir, session_names=None, additive=False):
                 "oid": oid, "platform": platform, "variant": vlabel, "mode": mname, "line": line, "len": m.get("len", []),
                 "carves": [c[0] for c in carves], "findings": [c[2] for c in carves if c[2]], "class": list(m["class"]),
                 "trail": ps["trail"], "table": tname, "levels": [n for n, _, _ in tbl]})
+    # further tables (no obligations): used by the cache-history correspondence only
+    if "session" in ps:
+        for name in extra_tables:
+            d = driver_for(platform)
+            d.register_configuration_session(session_name=name)
+            tbl = table_of(d)
+            tname = "tbl_session_%s" % re.sub(r"[^A-Za-z0-9]", "_", name)
+            if tname in tables:
+                continue
+            lvl_terms = []
+            for lname, pat, ncs in tbl:
+                t = em.re_term(pat, re.M | re.I)
+                lvl_terms.append("mkLevel %s %s [%s]" % (coq_str(lname), t, "; ".join(coq_bytes(nc.encode("latin-1")) for nc in ncs)))
+            lines.append("Definition %s : list level := [\n  %s]." % (tname, ";\n  ".join(lvl_terms)))
+            tables[tname] = {"variant": "session:" + name, "levels": [[n, p_, list(nc)] for n, p_, nc in tbl], "combined": d.comms_prompt_pattern}
     atoms = rx.atoms(em.class_sets)
     head = ["(* generated from /repo and /verif/spec/prompts.py by gen/gen_prompts.py — do not edit *)",
             "From Coq Require Import String.",
